@@ -20,8 +20,9 @@ func init() {
 			Explanation: "Static proof for ALL n >= 1, by abstract interpretation of the SSA of PeerSet.SuperMajority / TrustCount / Len in the domain of eventually periodic quasi-affine functions (explicit table below n=48, closed form A_r*q+B_r per residue class beyond): " +
 				"C19.sm: SuperMajority(n) = floor(2n/3)+1 (least integer > 2n/3), 2*SM-n > n/3, SM - f > f with f = ceil(n/3)-1, SM <= n; C19.trust: T(n) >= floor(n/3), T(1)=0, T(n)>=1 for n>=2, T(n) >= f(n), T(n) < n; " +
 				"C19.use: every comparison against TrustCount() in the module is strict (count > T), every one against SuperMajority() is count >= SM; the memo fields are written only by their getters; Peers/ByPubKey/ByID are written only by NewPeerSet/initMaps/Unmarshal; WithNewPeer refuses an existing ID. " +
+				"C19.anchor (every update of the anchor block — the first and every later one — is guarded by len(Signatures) > TrustCount of the block round's set; shared with C09.anchor). " +
 				"Nothing is executed: equalities and inequalities between closed forms are decided by comparing coefficients per residue class and the finite table."},
-		Rules: []ruleFunc{c19sm, c19trust, c19use, func(p *Prog, r *Report) { signRule(p, r, "C19.sign") }, func(p *Prog, r *Report) { memberRule(p, r, "C19.member") }},
+		Rules: []ruleFunc{c19sm, c19trust, c19use, func(p *Prog, r *Report) { signRule(p, r, "C19.sign") }, func(p *Prog, r *Report) { memberRule(p, r, "C19.member") }, func(p *Prog, r *Report) { anchorRule(p, r, "C19.anchor") }},
 	})
 }
 
